@@ -1,72 +1,51 @@
-(* Teardown (C09): handshake families in which the T1 timer may exhaust its retransmissions: the safety
-   clauses hold, termination is refuted (witness runs). *)
+(* Teardown (C09): handshake families in which the T1 timer may exhaust its retransmissions.
+   After fix aeda016 (the connect call closes the association when the handshake result is an error) the
+   run "T1 gives up, the handshake completes late, the transport fails" terminates: the families with a
+   Close() or a transport read failure pass every check.  What is left in the faithful model is a narrow
+   race: the failure callback of T1 has fired and waits for a.lock while the read loop completes the
+   handshake; its completeHandshake(err) then finds nobody and blocks under a.lock (witness runs below). *)
 From Coq Require Import Bool List PArith NArith.
 From Sctp Require Import Gen Teardown TeardownProofs.
 Import ListNotations.
 
-(* T1 exhaustion: the safety clauses other than "a stuck state is finished" still hold in every family ... *)
+(* the safety clauses other than "a stuck state is finished" hold in every T1 family *)
 Definition td_chk_state_t1 (s : td_state) : bool :=
-  td_chk_wac s && td_chk_chan s && td_chk_abort s && td_chk_close2 s.
+  td_chk_wac s && td_chk_chan s && td_chk_abort s && td_chk_close2 s && td_chk_shut s.
 
 Lemma td_families_t1_safe : forallb (fun c => td_check_family_safe c td_chk_state_t1) td_families_t1 = true.
 Proof. vm_cast_no_check (eq_refl true). Qed.
 
-(* ... and with a Close() injection everything holds *)
-Lemma td_family_t1_close_ok : td_check_family (mkTdCfg TdPhHs TdInjClose TdMixNone true false) = true.
+(* with a Close() call or a failing conn.Read as the injection everything holds (a read error makes the read
+   loop close closeWriteLoopCh before it needs the lock, which releases a blocked completeHandshake) *)
+Definition td_families_t1_ok : list td_cfg :=
+  [mkTdCfg TdPhHs TdInjClose TdMixNone true false; mkTdCfg TdPhHs TdInjRfail TdMixNone true false].
+
+Lemma td_families_t1_ok_chk : forallb td_check_family td_families_t1_ok = true.
 Proof. vm_cast_no_check (eq_refl true). Qed.
 
-Definition td_sizes_t1 : list N :=
-  Eval vm_compute in map td_family_size td_families_t1.
+Definition td_sizes_t1 : list N := Eval vm_compute in map td_family_size td_families_t1.
 
-(* Witness 1 (transport failure).  T1 exhausts its retransmissions: the Client call returns the handshake
-   error (steps 1-3).  A late INIT-ACK / COOKIE-ACK then completes the handshake: completeHandshake blocks
-   under a.lock because nobody receives from handshakeCompletedCh any more (step 4).  Now the transport
-   fails (step 5): the read loop is not in conn.Read, the write loop is blocked on a.lock; nothing moves. *)
+(* The former witness (before aeda016): T1 fires, takes the lock, the connect call receives the error; a late
+   COOKIE-ACK; the transport fails.  Now the connect call closes the association, the run goes on to a
+   finished state. *)
 Definition td_cfg_t1_rfail := mkTdCfg TdPhHs TdInjRfail TdMixNone true false.
-Definition td_witness_t1_rfail : list nat := [7; 7; 1; 2; 0].
 
-Definition td_rlpc_is_hs (x : td_rlpc) := match x with TdRlHs => true | _ => false end.
-Definition td_cwpc_is_hserr (x : td_cwpc) := match x with TdCwHsErr => true | _ => false end.
-Definition td_abpc_is_flag (x : td_abpc) := match x with TdAbFlag => true | _ => false end.
-
-Definition td_witness_t1_rfail_chk : bool :=
-  match td_follow td_cfg_t1_rfail (td_init td_cfg_t1_rfail) td_witness_t1_rfail with
-  | Some s => td_cwpc_is_hserr (td_cw s) && td_rlpc_is_hs (td_rl s) && td_lk s && td_rfail s && td_injd s &&
-              td_final td_cfg_t1_rfail s && negb (td_done s)
-  | None => false
-  end.
-
-Lemma td_witness_t1_rfail_chk_ok : td_witness_t1_rfail_chk = true.
-Proof. vm_cast_no_check (eq_refl true). Qed.
-
-Lemma td_witness_t1_rfail_ok :
-  exists s, td_follow td_cfg_t1_rfail (td_init td_cfg_t1_rfail) td_witness_t1_rfail = Some s /\
-            td_cw s = TdCwHsErr /\ td_rl s = TdRlHs /\ td_lk s = true /\ td_rfail s = true /\ td_injd s = true /\
-            td_final td_cfg_t1_rfail s = true /\ td_done s = false.
-Proof.
-  pose proof td_witness_t1_rfail_chk_ok as H. unfold td_witness_t1_rfail_chk in H.
-  destruct (td_follow td_cfg_t1_rfail (td_init td_cfg_t1_rfail) td_witness_t1_rfail) as [s|]; [|discriminate H].
-  repeat (apply andb_true_iff in H; destruct H as [H ?]).
-  exists s. split; [reflexivity|].
-  split; [destruct (td_cw s); try discriminate; reflexivity|].
-  split; [destruct (td_rl s); try discriminate; reflexivity|].
-  repeat split; try assumption. apply negb_true_iff. assumption.
-Qed.
-
-(* the actors along the witness *)
-Lemma td_witness_t1_rfail_actors :
-  td_path_actors td_cfg_t1_rfail (td_init td_cfg_t1_rfail) td_witness_t1_rfail
-    = [TdAT1Fail; TdAT1Fail; TdAT1Fail; TdAEnv; TdAEnv].
-Proof. vm_cast_no_check (eq_refl [TdAT1Fail; TdAT1Fail; TdAT1Fail; TdAEnv; TdAEnv]). Qed.
-
-(* Witness 2 (Abort): same blocked completeHandshake, then Abort() blocks on a.lock and never returns. *)
+(* Residual witness (Abort): the T1 failure callback has fired (1); the handshake-completing packet is handled
+   (2) and the connect call returns the association (3); the callback gets a.lock and blocks in
+   completeHandshake(err): nobody receives, no channel is closed (4); Abort() is called and blocks on a.lock
+   for ever (5). *)
 Definition td_cfg_t1_abort := mkTdCfg TdPhHs TdInjAbort TdMixNone true false.
-Definition td_witness_t1_abort : list nat := [7; 7; 1; 2; 0].
+Definition td_witness_t1_abort : list nat := [7; 2; 1; 4; 0].
+
+Definition td_tfpc_is_blocked (x : td_tfpc) := match x with TdTfBlocked => true | _ => false end.
+Definition td_cwpc_is_ok (x : td_cwpc) := match x with TdCwOk => true | _ => false end.
+Definition td_abpc_is_flag (x : td_abpc) := match x with TdAbFlag => true | _ => false end.
+Definition td_ast_is_est (x : td_ast) := match x with TdStEst => true | _ => false end.
 
 Definition td_witness_t1_abort_chk : bool :=
   match td_follow td_cfg_t1_abort (td_init td_cfg_t1_abort) td_witness_t1_abort with
-  | Some s => td_cwpc_is_hserr (td_cw s) && td_rlpc_is_hs (td_rl s) && td_lk s && td_abpc_is_flag (td_ab s) &&
-              td_final td_cfg_t1_abort s && negb (td_done s)
+  | Some s => td_cwpc_is_ok (td_cw s) && td_tfpc_is_blocked (td_tf s) && td_lk s && td_abpc_is_flag (td_ab s) &&
+              td_ast_is_est (td_st s) && td_final td_cfg_t1_abort s && negb (td_done s)
   | None => false
   end.
 
@@ -75,7 +54,7 @@ Proof. vm_cast_no_check (eq_refl true). Qed.
 
 Lemma td_witness_t1_abort_ok :
   exists s, td_follow td_cfg_t1_abort (td_init td_cfg_t1_abort) td_witness_t1_abort = Some s /\
-            td_cw s = TdCwHsErr /\ td_rl s = TdRlHs /\ td_lk s = true /\ td_ab s = TdAbFlag /\
+            td_cw s = TdCwOk /\ td_tf s = TdTfBlocked /\ td_lk s = true /\ td_ab s = TdAbFlag /\ td_st s = TdStEst /\
             td_final td_cfg_t1_abort s = true /\ td_done s = false.
 Proof.
   pose proof td_witness_t1_abort_chk_ok as H. unfold td_witness_t1_abort_chk in H.
@@ -83,14 +62,43 @@ Proof.
   repeat (apply andb_true_iff in H; destruct H as [H ?]).
   exists s. split; [reflexivity|].
   split; [destruct (td_cw s); try discriminate; reflexivity|].
-  split; [destruct (td_rl s); try discriminate; reflexivity|].
+  split; [destruct (td_tf s); try discriminate; reflexivity|].
   split; [assumption|].
   split; [destruct (td_ab s); try discriminate; reflexivity|].
+  split; [destruct (td_st s); try discriminate; reflexivity|].
   split; [assumption|]. apply negb_true_iff. assumption.
 Qed.
 
-(* the same stuck state is reached with a conn.Write failure and with an inbound ABORT that is never read *)
-Lemma td_t1_stuck_other_injections :
-  forallb (fun c => match td_find_path c (fun s => td_final c s && negb (td_done s)) with Some _ => true | None => false end)
-          [mkTdCfg TdPhHs TdInjWfail TdMixNone true false] = true.
+Lemma td_witness_t1_abort_actors :
+  td_path_actors td_cfg_t1_abort (td_init td_cfg_t1_abort) td_witness_t1_abort
+    = [TdAT1Fail; TdAEnv; TdARead; TdAT1Fail; TdAEnv].
+Proof. vm_cast_no_check (eq_refl [TdAT1Fail; TdAEnv; TdARead; TdAT1Fail; TdAEnv]). Qed.
+
+(* Residual witness (conn.Write fails): the same blocked callback; the write loop never gets a.lock, the
+   failure is never noticed. *)
+Definition td_cfg_t1_wfail := mkTdCfg TdPhHs TdInjWfail TdMixNone true false.
+Definition td_witness_t1_wfail : list nat := [7; 2; 1; 4; 0].
+
+Definition td_witness_t1_wfail_chk : bool :=
+  match td_follow td_cfg_t1_wfail (td_init td_cfg_t1_wfail) td_witness_t1_wfail with
+  | Some s => td_cwpc_is_ok (td_cw s) && td_tfpc_is_blocked (td_tf s) && td_lk s && td_wfail s && td_injd s &&
+              td_final td_cfg_t1_wfail s && negb (td_done s)
+  | None => false
+  end.
+
+Lemma td_witness_t1_wfail_chk_ok : td_witness_t1_wfail_chk = true.
 Proof. vm_cast_no_check (eq_refl true). Qed.
+
+Lemma td_witness_t1_wfail_ok :
+  exists s, td_follow td_cfg_t1_wfail (td_init td_cfg_t1_wfail) td_witness_t1_wfail = Some s /\
+            td_cw s = TdCwOk /\ td_tf s = TdTfBlocked /\ td_lk s = true /\ td_wfail s = true /\ td_injd s = true /\
+            td_final td_cfg_t1_wfail s = true /\ td_done s = false.
+Proof.
+  pose proof td_witness_t1_wfail_chk_ok as H. unfold td_witness_t1_wfail_chk in H.
+  destruct (td_follow td_cfg_t1_wfail (td_init td_cfg_t1_wfail) td_witness_t1_wfail) as [s|]; [|discriminate H].
+  repeat (apply andb_true_iff in H; destruct H as [H ?]).
+  exists s. split; [reflexivity|].
+  split; [destruct (td_cw s); try discriminate; reflexivity|].
+  split; [destruct (td_tf s); try discriminate; reflexivity|].
+  repeat split; try assumption. apply negb_true_iff. assumption.
+Qed.
